@@ -78,6 +78,60 @@ def main():
             rac.fail(f"expr {shapes[i]} | {shapes[j]}", f"expressions {shapes[i]} / {shapes[j]}: == {E1[i] == E2[j]}, hash equal {hash(E1[i]) == hash(E2[j])}",
                      PRELUDE + f"import xdeps\nr = xdeps.Manager().ref({{}}, 'd'); a = {shapes[i]}\nr = xdeps.Manager().ref({{}}, 'd'); b = {shapes[j]}\nassert (a == b) == {same} and ({not same} or hash(a) == hash(b))\n",
                      "BinOpExpr.__cinit__")
+    rac.section("consistency", "pairs of call expressions that differ only in the ORDER of their keyword arguments (equal or not is the "
+                "library's choice): a == b implies hash(a) == hash(b) and a dict/set lookup hit, a != b implies no hit", "6 call shapes, all pairs")
+
+    class F0:
+        @staticmethod
+        def f(*a, **k):
+            return 0
+    fr0 = xdeps.Manager().ref(F0, "f")
+    calls = ["fr.f(r['a'], gain=r['b'], offset=1)", "fr.f(r['a'], offset=1, gain=r['b'])", "fr.f(gain=r['b'], offset=1)",
+             "fr.f(offset=1, gain=r['b'])", "fr.f(r['a'], z=1, y=2, x=r['b'])", "fr.f(r['a'], x=r['b'], y=2, z=1)"]
+    C1 = [eval(s, dict(r=r1, fr=fr0)) for s in calls]
+    C2 = [eval(s, dict(r=r2, fr=fr0)) for s in calls]
+    for i, j in itertools.product(range(len(calls)), repeat=2):
+        a, b = C1[i], C2[j]
+        eq = a == b
+        hit = {a: 1}.get(b) == 1 and b in {a}
+        rac.case(("consistency", i, j), nontrivial=i != j, sample=(calls[i], calls[j]))
+        if (eq and (hash(a) != hash(b) or not hit)) or (not eq and hit) or (i == j and not eq):
+            rac.fail(f"consistency {calls[i]} | {calls[j]}", f"{calls[i]} / {calls[j]}: == {eq}, hash equal {hash(a) == hash(b)}, dict/set lookup hits {hit}",
+                     PRELUDE + "import xdeps\nclass F:\n    @staticmethod\n    def f(*a, **k): return 0\nfr = xdeps.Manager().ref(F, 'f')\n"
+                     f"r = xdeps.Manager().ref({{}}, 'd'); a = {calls[i]}\nr = xdeps.Manager().ref({{}}, 'd'); b = {calls[j]}\n"
+                     "eq = a == b; hit = {a: 1}.get(b) == 1 and b in {a}\nprint(a, b, eq, hash(a) == hash(b), hit)\n"
+                     f"assert not (eq and (hash(a) != hash(b) or not hit)) and not (not eq and hit) and ({i != j} or eq)\n", "CallRef.__cinit__")
+    rac.section("routes", "the same access path obtained by the two construction routes -- assignment (owner[key] = expr / owner.name = expr, which "
+                "files the target ref in manager.tasks) and read (owner[key] / owner.name) -- is one path: the read-route ref finds the task, "
+                "has the expression attached, is equal to and hashes like the filed key", "keys incl. numpy integer / float / bool scalars and attribute names")
+    import numpy as np
+    RK = [k for k in KEYS] + [np.int64(2), np.int32(-1), np.uint8(1), np.int64(0), np.float64(1.5), np.bool_(True), np.str_("q"), 2, 0, True]
+    for k in RK:
+        for kind in ("item", "attr"):
+            if kind == "attr" and not (isinstance(k, str) and k.isidentifier()):
+                continue
+            mm = xdeps.Manager()
+            dd = dict(a=1.0, v={}, o=type("O", (), {})())
+            rr = mm.ref(dd, "d")
+            try:
+                if kind == "item":
+                    rr["v"][k] = rr["a"] + 1
+                    rd = rr["v"][k]
+                else:
+                    setattr(rr["o"], k, rr["a"] + 1)
+                    rd = getattr(rr["o"], k)
+            except Exception as ex:      # noqa
+                continue
+            filed = [t for t in mm.tasks if str(t) == str(rd)] or list(mm.tasks)
+            ok = rd in mm.tasks and rd._expr is not None and any(rd == t and hash(rd) == hash(t) for t in mm.tasks)
+            rac.case(("routes", kind, repr(k), type(k).__name__), sample=(kind, repr(k)))
+            if not ok:
+                ksrc = (f"np.{type(k).__name__}({k.item()!r})" if isinstance(k, np.generic) else repr(k))
+                body = (f"r['v'][k] = r['a'] + 1\nrd = r['v'][k]\n" if kind == "item" else "setattr(r['o'], k, r['a'] + 1)\nrd = getattr(r['o'], k)\n")
+                rac.fail(f"routes {kind} {k!r} {type(k).__name__}", f"{kind} key {k!r} ({type(k).__name__}): the task was filed under {filed[0]!r}; the ref built by reading "
+                         f"the same path is {rd!r}: in manager.tasks {rd in mm.tasks}, expression attached {rd._expr is not None}",
+                         PRELUDE + f"import xdeps\nimport numpy as np\nk = {ksrc}\nm = xdeps.Manager(); d = dict(a=1.0, v={{}}, o=type('O', (), {{}})()); r = m.ref(d, 'd')\n"
+                         + body + "print(list(m.tasks), repr(rd))\nassert rd in m.tasks and rd._expr is not None\n", "BaseRef.__getitem__")
     rac.section("rebuilt", "every node class: the same structure obtained by another construction route (copy.copy, "
                 "the class applied to __reduce__'s arguments, CallRef kwargs as dict vs tuple of pairs, evaluation of the "
                 "printed form) is equal and hashes equally", "18 expression shapes x 4 routes")
